@@ -191,11 +191,14 @@ theorem Q_eq_connCount_small_all (n k : Nat) (h1 : 1 ≤ n) (h5 : n ≤ 5) : Q n
 theorem Q_eq_QQ_small (n k : Nat) (h1 : 1 ≤ n) (h5 : n ≤ 5) (hk : k ≤ n * (n - 1) / 2) : Q n k = (QQ n k : Int) := by
   rw [QQ_spec n k hk, Q_eq_connCount_small n h1 h5 k hk]
 
-/-- NOT PROVED (needs Cayley's formula `n^(n-2)`, absent from Mathlib, and the Harary–Palmer recursion) -/
+/-- OPEN only through Cayley's formula: proved EQUIVALENT to `cayley_connCount` (`connCount n (n-1) = n^(n-2)`) in
+`Properties/C16Counts.lean` (`Q_eq_connCount_iff_cayley`) and proved outright for `n ≤ 12` (`Q_eq_connCount_le12`) -/
 def Q_eq_connCount_full : Prop := ∀ n k, 1 ≤ n → Q n k = (connCount n k : Int)
-/-- NOT PROVED (the Harary–Palmer recursion without the shortcut) -/
+/-- PROVED for every `n`, `k` in `Properties/C16Counts.lean` (`Qgen_eq_connCount`, the Harary–Palmer classification of all
+graphs by the component of a fixed vertex, `Lemmas/HararyPalmer.lean`) -/
 def Qgen_eq_connCount_full : Prop := ∀ n k, 1 ≤ n → Qgen n k = (connCount n k : Int)
-/-- NOT PROVED beyond `n ≤ 12` (`Q_eq_Qgen`) -/
+/-- proved for `n ≤ 12` (`Q_eq_Qgen`, kernel table); for all `n` EQUIVALENT to `Q_eq_connCount_full`, hence to Cayley's
+formula (`Q_eq_connCount_iff_Q_eq_Qgen`, `Properties/C16Counts.lean`) -/
 def Q_eq_Qgen_full : Prop := ∀ n k, 1 ≤ n → Q n k = Qgen n k
 
 /-! ## 4. the chordless-cycle equation -/
@@ -261,9 +264,11 @@ end algebra
 
 /- `cycleGraph n`, the cycle `0 - 1 - … - (n-1) - 0`, is defined in `Lemmas/CycleExact.lean`. -/
 
-/-- NOT PROVED: the clique closed form is the exact bond-percolation generating function of the clique
-(= the automated equation on `K_τ` rooted at 0, `Hs` = the `u` of the other vertices).  Checked as a polynomial
-identity by the correspondence harness for `τ ≤ 7`. -/
+/-- the clique closed form is the exact bond-percolation generating function of the clique (= the automated equation on
+`K_τ` rooted at 0, `Hs` = the `u` of the other vertices).  PROVED in `Properties/C16Clique.lean` / `C16Full.lean`:
+unconditionally for `τ ≤ 12` (`clique_exact_le12`), and for every `τ` from `Q_eq_connCount_full`
+(`clique_exact_of_counts`), i.e. from Cayley's formula alone (`clique_exact_of_cayley`); the unconditional identity with
+`connCount` in place of `Q` is `automated_clique`. -/
 def clique_exact_full : Prop :=
   ∀ (R : Type) [CommRing R] (tau : Nat) (φ : R) (u : Nat → R), 1 ≤ tau →
     cliqueEquation tau φ ((List.range (tau - 1)).map fun i => u (i + 1))
